@@ -9,6 +9,7 @@
                   coefficient k (supst_b then supst_sb)
     The claims say which monomial each divisor is; every claim is checked by the run against
     the polynomial the DAG actually computes there. *)
+Set Warnings "-ambiguous-paths,-notation-overridden".
 From Coq Require Import ZArith QArith Qreals Reals List Bool Lia Lra.
 From Coquelicot Require Import Coquelicot.
 From P Require Import Expr Laurent Expand Jet PolyJet Potential.
